@@ -913,6 +913,14 @@ func (c *Ctx) c18Multi() {
 				c.Monitor(stream, i, "C18 allOrNothing per file / C18_files_independent", in, mon == "ok",
 					fmt.Sprintf("%s: file %s exit=%d old=%s new=%s observed=%s", mon, name, pr.Exit, clip(old), clip(nw), clip(obs)))
 			}, "c18mon", old, nw, obs, status)
+			// the last clause of the property on this file alone: whatever the command as a whole reports, a file that parses
+			// and whose own write fits under the limit has been rewritten completely
+			if f.New != nil && (limit < 0 || len(f.New) <= limit) {
+				bt.Add(func(mon string) {
+					c.Monitor(stream, i, c18IndependentPred, in, mon == "ok",
+						fmt.Sprintf("%s: file %s (of %s) exit=%d stderr=%s old=%s new=%s observed=%s", mon, name, strings.Join(argv, " "), pr.Exit, clip(pr.Stderr), clip(old), clip(nw), clip(obs)))
+				}, "c18mon", old, nw, obs, "1")
+			}
 		}
 		c.Monitor(stream, i, "no stray file", in, len(strays) == 0, strings.Join(strays, ","))
 	}
@@ -994,6 +1002,303 @@ func c18MultiSizes(c *Ctx, gen int, scratch string) []int {
 		}
 	}
 	return res
+}
+
+// ---------------------------------------------------------------- siblings stream
+
+// The last clause of the property, stated on the real directory (Lean predicate allOrNothing with the status of the
+// file's SOLO run, which is what C18_files_independent proves of the model): a file of the invocation that exists, can
+// be read, parses and whose own write meets no fault ends with its complete new contents — the bytes `knut format` alone
+// on a private copy produces, with the old mode — whatever happens to the other files named in the same command and
+// wherever it stands in the argument list.
+const c18IndependentPred = "C18_files_independent: a file that parses and whose own write meets no fault ends with its complete new contents, whatever happens to the other files of the same command"
+
+type c18Sib struct {
+	c18File
+	Fault string // "-" | "parse" | "read" (mode 000, unprivileged user) | "missing" (named but absent) | "limit" (larger than RLIMIT_FSIZE)
+}
+
+type c18SibCase struct {
+	Files    []c18Sib // in argument order
+	Limit    int
+	Env      []string
+	Procs    int // 0: not set
+	AsNobody bool
+	Place    string
+	NBad     int
+}
+
+// c18SibGen: 2-12 files, 0-3 of them failing at the first / middle / last / random argument positions; kinds of failure:
+// a damaged line, a file that is no text at all, an unreadable file, a missing file, a file larger than the size limit.
+func (c *Ctx) c18SibGen(i int, scratch string, canDrop bool) c18SibCase {
+	r := c.Rng("siblings", i)
+	nf := 2 + i%11
+	nbad := Pick(r, []int{0, 1, 1, 1, 1, 2, 2, 3})
+	if nbad > nf-1 {
+		nbad = nf - 1
+	}
+	cs := c18SibCase{Limit: -1, NBad: nbad, Place: Pick(r, []string{"first", "middle", "last", "random"})}
+	bad := map[int]string{}
+	faults := []string{"parse-error", "binary", "unreadable", "missing", "limit"}
+	pos := 0
+	switch cs.Place {
+	case "middle":
+		pos = (nf - nbad) / 2
+	case "last":
+		pos = nf - nbad
+	}
+	for k := 0; k < nbad; k++ {
+		p := pos + k
+		if cs.Place == "random" {
+			for p = r.Intn(nf); bad[p] != ""; p = r.Intn(nf) {
+			}
+		}
+		bad[p] = Pick(r, faults)
+		if bad[p] == "unreadable" && !canDrop {
+			bad[p] = "missing"
+		}
+	}
+	withLimit := false
+	for _, b := range bad {
+		withLimit = withLimit || b == "limit"
+	}
+	goodKinds := []string{"plain", "plain", "big", "formatted", "empty", "no-final-newline"}
+	if withLimit {
+		// the files that are to pass are smaller than the ones that are to be cut
+		goodKinds = []string{"plain", "plain", "formatted", "empty", "no-final-newline"}
+	}
+	formatCmd := func(t string) []string { return []string{"format", t} }
+	maxGood, minBad := 0, -1
+	for k := 0; k < nf; k++ {
+		f := c18Sib{Fault: "-"}
+		f.Name = fmt.Sprintf("%s%d.knut", Pick(r, []string{"a", "j", "m", "z"}), k)
+		f.Mode = Pick(r, []os.FileMode{0o644, 0o644, 0o600, 0o664, 0o640})
+		f.Kind = Pick(r, goodKinds)
+		switch bad[k] {
+		case "parse-error", "binary":
+			f.Kind, f.Fault = bad[k], "parse"
+		case "unreadable":
+			f.Mode, f.Fault, cs.AsNobody = 0, "read", true
+		case "missing":
+			f.Fault = "missing"
+		case "limit":
+			f.Kind, f.Fault = "big", "limit"
+		}
+		text := c18GenText(r, f.Kind)
+		// distinct contents, so that the model's per-content renderer is a function
+		if f.Kind == "no-final-newline" {
+			text += fmt.Sprintf("\n# file %d", k)
+		} else {
+			text += fmt.Sprintf("\n# file %d\n", k)
+		}
+		f.Old = []byte(text)
+		if f.Kind == "formatted" {
+			if nb := c.c18Render(scratch, formatCmd, f.Name, f.Old, nil); nb != nil {
+				f.Old = nb
+			}
+		}
+		if f.Fault == "missing" {
+			f.Old = nil
+		} else {
+			f.New = c.c18Render(scratch, formatCmd, f.Name, f.Old, nil)
+		}
+		if f.New != nil {
+			if f.Fault == "limit" {
+				if minBad < 0 || len(f.New) < minBad {
+					minBad = len(f.New)
+				}
+			} else if len(f.New) > maxGood {
+				maxGood = len(f.New)
+			}
+		}
+		cs.Files = append(cs.Files, f)
+	}
+	switch {
+	case withLimit && minBad > maxGood:
+		// anywhere between the largest file that is to pass (fits exactly) and one byte less than the smallest that is to fail
+		cs.Limit = Pick(r, []int{maxGood, minBad - 1, maxGood + r.Intn(minBad-maxGood), (maxGood + minBad) / 2})
+	case withLimit:
+		cs.Limit = minBad - 1
+	case r.Chance(1, 4):
+		// a limit that cuts nobody: the largest file fits exactly or with a few bytes to spare
+		cs.Limit = maxGood + Pick(r, []int{0, 0, 1, 2, 4096})
+	}
+	cs.Procs = Pick(r, []int{1, 1, 1, 2, 2, 16, 16, 0})
+	if cs.Procs > 0 {
+		cs.Env = append(cs.Env, fmt.Sprintf("GOMAXPROCS=%d", cs.Procs))
+	}
+	if r.Chance(1, 2) {
+		cs.Env = append(cs.Env, fmt.Sprintf("KNUT_VERIF_SEED=%d", r.Range(1, 100000)))
+	}
+	return cs
+}
+
+// faulted: the file's own rewrite cannot succeed (its solo run fails)
+func (cs c18SibCase) faulted(f c18Sib) bool {
+	return f.Fault == "parse" || f.Fault == "read" || f.Fault == "missing" || f.New == nil || (cs.Limit >= 0 && len(f.New) > cs.Limit)
+}
+
+func (c *Ctx) c18Siblings() {
+	n := c.N(200, 3000)
+	scratch := filepath.Join(c.WorkDir, "render")
+	canDrop := true
+	probe := c.c18Exec(c18Run{Dir: filepath.Join(c.WorkDir, "siblings-probe"), Files: map[string][]byte{"x.knut": []byte("")}, Modes: map[string]os.FileMode{"x.knut": 0o644},
+		Argv: []string{"format", "x.knut"}, Limit: 1 << 20, AsNobody: true, DirMode: 0o755})
+	if probe.Exit != 0 {
+		canDrop = false
+		c.Notes = append(c.Notes, "siblings stream: cannot run knut as an unprivileged user here, unreadable files are replaced by missing ones: "+clip(probe.Stderr))
+		c.Extra["siblings_unreadable"] = "skipped"
+	}
+	bt := c.NewBatch()
+	defer bt.Flush()
+	for i := 0; i < n; i++ {
+		i := i
+		if !c.Want("siblings", i) {
+			continue
+		}
+		cs := c.c18SibGen(i, scratch, canDrop)
+		files := map[string][]byte{}
+		modes := map[string]os.FileMode{}
+		argv := []string{"format"}
+		desc := []map[string]any{}
+		var failing []int
+		kindSet := map[string]bool{}
+		for k, f := range cs.Files {
+			argv = append(argv, f.Name)
+			if f.Fault != "missing" {
+				files[f.Name] = f.Old
+				modes[f.Name] = f.Mode
+			}
+			fl := f.Fault
+			if fl == "-" && f.New == nil {
+				fl = "parse"
+			} else if fl == "-" && cs.faulted(f) {
+				fl = "limit"
+			}
+			if cs.faulted(f) {
+				failing = append(failing, k)
+				kindSet[fl+"/"+f.Kind] = true
+			}
+			desc = append(desc, map[string]any{"name": f.Name, "kind": f.Kind, "fails_alone": cs.faulted(f), "why": fl, "mode": fmt.Sprintf("%o", f.Mode), "old": string(f.Old), "new_len": len(f.New)})
+		}
+		var kinds []string
+		for k := range kindSet {
+			kinds = append(kinds, k)
+		}
+		sort.Strings(kinds)
+		dir := filepath.Join(c.WorkDir, "siblings")
+		rn := c18Run{Dir: dir, Files: files, Modes: modes, Argv: argv, Limit: cs.Limit, Env: cs.Env, AsNobody: cs.AsNobody}
+		observe := func() []string {
+			var parts []string
+			for _, f := range cs.Files {
+				parts = append(parts, fileField(filepath.Join(dir, f.Name)))
+			}
+			return parts
+		}
+		pr := c.c18Exec(rn)
+		implParts := observe()
+		if c.Replay && cs.Procs != 1 {
+			// the outcome may depend on the schedule: a replay repeats the command until a file that should be new is not
+			for rep := 0; rep < 12; rep++ {
+				hit := false
+				for k, f := range cs.Files {
+					if !cs.faulted(f) && implParts[k] != fieldOf(f.New, f.Mode) {
+						hit = true
+					}
+				}
+				if hit {
+					break
+				}
+				pr = c.c18Exec(rn)
+				implParts = observe()
+			}
+		}
+		c.Evals++
+		in := map[string]any{"argv": argv, "RLIMIT_FSIZE": cs.Limit, "env": cs.Env, "files_in_argument_order": desc, "failing_positions": failing}
+		if cs.AsNobody {
+			in["uid"] = 65534
+		}
+		if !c.Monitor("siblings", i, "terminates", in, !pr.Timeout, "timeout") {
+			continue
+		}
+		c.Monitor("siblings", i, "no panic", in, !strings.Contains(pr.Stderr, "panic:") && !strings.Contains(pr.Stderr, "goroutine "), clip(pr.Stderr))
+		nfb := "2"
+		switch nf := len(cs.Files); {
+		case nf > 8:
+			nfb = "9-12"
+		case nf > 4:
+			nfb = "5-8"
+		case nf > 2:
+			nfb = "3-4"
+		}
+		place := cs.Place
+		if len(failing) == 0 {
+			place = "-"
+		}
+		c.Class(fmt.Sprintf("siblings/n%s/failing%d/%s/%s/procs%d/limit%v", nfb, len(failing), place, strings.Join(kinds, "+"), cs.Procs, cs.Limit >= 0))
+		if i < 2 {
+			c.Sample(map[string]any{"stream": "siblings", "argv": argv, "env": cs.Env, "RLIMIT_FSIZE": cs.Limit, "failing_positions": failing, "exit": pr.Exit, "stderr": clip(pr.Stderr)})
+		}
+		var strays []string
+		ents, _ := os.ReadDir(dir)
+		for _, e := range ents {
+			if _, ok := files[e.Name()]; !ok {
+				strays = append(strays, e.Name())
+			}
+		}
+		lim := "-"
+		if cs.Limit >= 0 {
+			lim = itoa(cs.Limit)
+		}
+		var jobs []string
+		for _, f := range cs.Files {
+			fault, old := "-", "absent"
+			if f.Fault == "read" {
+				fault = "read"
+			}
+			if f.Fault != "missing" {
+				old = fieldOf(f.Old, f.Mode)
+			}
+			jobs = append(jobs, fmt.Sprintf("%s/%s/0/%s/%s", fault, lim, old, newField(f.New)))
+		}
+		allOK := pr.Exit == 0
+		bt.Add(func(ans string) {
+			var modelParts []string
+			modelOK := true
+			for _, p := range strings.Split(ans, ";") {
+				fl := strings.Fields(p)
+				if len(fl) < 2 {
+					modelParts = append(modelParts, p)
+					continue
+				}
+				if fl[0] != "ok" {
+					modelOK = false
+				}
+				modelParts = append(modelParts, fl[len(fl)-2])
+			}
+			c.Compare("siblings", i, "c18multi", in, fmt.Sprintf("exit-ok=%v %s", allOK, strings.Join(implParts, " ")), fmt.Sprintf("exit-ok=%v %s", modelOK, strings.Join(modelParts, " ")))
+		}, "c18multi", strings.Join(jobs, ","))
+		for k, f := range cs.Files {
+			old, nw, obs := "absent", newField(f.New), implParts[k]
+			if f.Fault != "missing" {
+				old = fieldOf(f.Old, f.Mode)
+			}
+			name, k := f.Name, k
+			if cs.faulted(f) {
+				bt.Add(func(mon string) {
+					c.Monitor("siblings", i, "C18 allOrNothing: a file whose own rewrite fails is left as it was", in, mon == "ok",
+						fmt.Sprintf("%s: argument %d (%s) exit=%d stderr=%s old=%s observed=%s", mon, k+1, name, pr.Exit, clip(pr.Stderr), clip(old), clip(obs)))
+				}, "c18mon", old, nw, obs, "0")
+				continue
+			}
+			bt.Add(func(mon string) {
+				c.Monitor("siblings", i, c18IndependentPred, in, mon == "ok",
+					fmt.Sprintf("%s: argument %d (%s) of %s %v; failing arguments (0-based) %v; exit=%d stderr=%s old=%s new=%s observed=%s", mon, k+1, name, strings.Join(argv, " "), cs.Env, failing,
+						pr.Exit, clip(pr.Stderr), clip(old), clip(nw), clip(obs)))
+			}, "c18mon", old, nw, obs, "1")
+		}
+		c.Monitor("siblings", i, "no stray file", in, len(strays) == 0, strings.Join(strays, ","))
+	}
 }
 
 // ---------------------------------------------------------------- facts stream
@@ -1107,10 +1412,13 @@ func runC18(c *Ctx) {
 	streams := []struct {
 		name string
 		f    func()
-	}{{"facts", c.c18Facts}, {"limit", c.c18Limit}, {"inject", c.c18InjectStream}, {"perm", c.c18Perm}, {"permlimit", c.c18PermLimit}, {"multi", c.c18Multi}, {"sizes", c.c18Sizes}}
+	}{{"facts", c.c18Facts}, {"limit", c.c18Limit}, {"inject", c.c18InjectStream}, {"perm", c.c18Perm}, {"permlimit", c.c18PermLimit}, {"multi", c.c18Multi}, {"siblings", c.c18Siblings}, {"sizes", c.c18Sizes}}
 	for _, s := range streams {
 		if c.Replay && c.OnlyStr != s.name && !(s.name == "limit" && c.OnlyStr == "limit-directed") && !(s.name == "multi" && c.OnlyStr == "multi-directed") {
 			continue
+		}
+		if only := os.Getenv("C18_ONLY"); only != "" && !c.Replay && !strings.Contains(","+only+",", ","+s.name+",") {
+			continue // development aid: C18_ONLY=multi,siblings runs these streams alone
 		}
 		t0 := time.Now()
 		s.f()
